@@ -654,6 +654,28 @@ func (w *c09World) bigBlockThenForgedCount(c *kernel.RunCtx) {
 		}
 	}
 	c.Count("probe.huge_script_decoded", 1)
+	// a length prefix that over-claims in front of 12 MiB of data that really is there ("this much has arrived, so
+	// the claim must be genuine" is not an argument)
+	{
+		real := &models.RTx{Version: 1, Ins: []models.RIn{{Script: []byte{0x51}}}, Outs: []models.ROut{{Sats: 1, Script: make([]byte, 12<<20)}}}
+		enc, fs := real.Encode(false, nil)
+		for _, f := range fs {
+			if !strings.HasSuffix(f.Name, "_len") || f.Val < 1<<20 {
+				continue
+			}
+			for _, claim := range []uint64{f.Val + 1, 1 << 31, 1 << 62, ^uint64(0)} {
+				mut := append(append(append([]byte(nil), enc[:f.Off]...), models.VarInt(claim)...), enc[f.Off+f.Len:]...)
+				for _, ep := range []int{epTxReadFrom, epFromBytes} {
+					r := runBinary(c, ep, mut, kernel.Plan{Kind: 5, Seed: claim}, -1, -1, false, true)
+					judge(c, r, fmt.Sprintf("len@%s:=%d in front of %d bytes of real data", f.Name, claim, f.Val), true, false, true)
+					if c.Failed() {
+						return
+					}
+				}
+			}
+		}
+		c.Count("probe.overclaim_before_megabytes_of_real_data", 1)
+	}
 	// proportionality holds for genuine data of any size: one 40 MiB data output, metered like everything else
 	{
 		huge := &models.RTx{Version: 1, Ins: []models.RIn{{Script: []byte{0x51}}}, Outs: []models.ROut{{Sats: 0, Script: make([]byte, (40<<20)+c.Choose(4096))}}}
@@ -883,7 +905,24 @@ func (w *c09World) jsonDocs(c *kernel.RunCtx, txs []*models.RTx, stream []byte, 
 					removed = keys[dk-1]
 					delete(obj, removed)
 				}
-				obj[fk.k] = fk.v
+				// the value as that producer writes it, or its empty form, or null (rotating with the run)
+				switch (j + c.RunIdx/64) % 3 {
+				case 0:
+					obj[fk.k] = fk.v
+				case 1:
+					switch fk.v.(type) {
+					case string:
+						obj[fk.k] = ""
+					case []interface{}:
+						obj[fk.k] = []interface{}{}
+					case map[string]interface{}:
+						obj[fk.k] = map[string]interface{}{}
+					default:
+						obj[fk.k] = 0
+					}
+				default:
+					obj[fk.k] = nil
+				}
 				b, err := json.Marshal(root)
 				if err != nil {
 					return
@@ -897,6 +936,46 @@ func (w *c09World) jsonDocs(c *kernel.RunCtx, txs []*models.RTx, stream []byte, 
 		}
 		// a longer document of the same shape (every list repeated up to 8 elements) in which EVERY number is written
 		// as a dozen bytes naming a number with a million digits
+		// a long list in which many elements are malformed in different ways (decoders that split a list among
+		// helpers must still come back with one error)
+		if l, ok := tg.doc.([]interface{}); ok && len(l) > 0 {
+			// with two Ps for the duration of these calls: a decoder that sizes a pool of helpers from GOMAXPROCS
+			// does not use it in a single-P process
+			prevProcs := runtime.GOMAXPROCS(2)
+			c.Enumerate(fmt.Sprintf("json%d-longlist", ti), 4, func(k int) {
+				bad := []int{1, 9, 20, 48}[k]
+				var long []interface{}
+				for i := 0; i < 48; i++ {
+					e := deepCopy(l[i%len(l)])
+					if i*bad/48 != (i+1)*bad/48 { // spread `bad` malformed elements evenly
+						switch i % 4 {
+						case 0:
+							e = nil
+						case 1:
+							e = "x"
+						case 2:
+							e = map[string]interface{}{}
+						default:
+							if m, ok := e.(map[string]interface{}); ok {
+								for key := range m {
+									m[key] = []interface{}{1}
+								}
+							}
+						}
+					}
+					long = append(long, e)
+				}
+				b, err := json.Marshal(long)
+				if err != nil {
+					return
+				}
+				w.runJSON(c, tg, b, fmt.Sprintf("a list of 48 elements, %d of them malformed", bad), "longlist")
+			})
+			runtime.GOMAXPROCS(prevProcs)
+			if c.Failed() {
+				return
+			}
+		}
 		numKeys := jsonNumberKeys(tg.doc, map[string]bool{})
 		c.Enumerate(fmt.Sprintf("json%d-bignum", ti), 3*len(numKeys), func(k int) {
 			txt := []string{"1e1000000", "1e-1000000", "0.1E+999999"}[k%3]
